@@ -747,3 +747,151 @@ func ruleFE1() Rule {
 			}
 		}}
 }
+
+// ---------------------------------------------------------------------------
+// OP1: "#" is two operators.
+
+func ruleOP1() Rule {
+	return Rule{ID: "OP1", Kind: "must", Floor: 2,
+		Doc: "the AST spells both the string-length form `${#name}` and prefix removal `${name#word}` with Op \"#\"; they differ in Word being nil. Every function of interp and printer that matches a ParamExp's Op against \"#\" also examines that ParamExp's Word for nil - itself, or every caller that hands it the ParamExp does - so that the length form is never treated like prefix removal (`\"${#@}\"` without positional parameters is `0`, not nothing)",
+		Run: func(c *Ctx, rr *core.RuleResult) {
+			type facts struct {
+				matched    map[types.Object]token.Pos
+				wordTested map[types.Object]bool
+			}
+			all := map[*core.Func]*facts{}
+			var funcs []*core.Func
+			for _, pkg := range []string{"interp", "printer"} {
+				for _, f := range c.funcsOfPkg(pkg, false) {
+					if f.Decl == nil {
+						continue
+					}
+					funcs = append(funcs, f)
+					info := f.Info()
+					isPE := func(e ast.Expr) types.Object {
+						id, ok := ast.Unparen(e).(*ast.Ident)
+						if !ok {
+							return nil
+						}
+						obj := info.Uses[id]
+						if obj == nil || namedTypeName(obj.Type()) != "*ast.ParamExp" {
+							return nil
+						}
+						return obj
+					}
+					opOf := func(e ast.Expr) types.Object {
+						se, ok := ast.Unparen(e).(*ast.SelectorExpr)
+						if !ok || se.Sel.Name != "Op" {
+							return nil
+						}
+						return isPE(se.X)
+					}
+					isHash := func(e ast.Expr) bool {
+						s, ok := constStr(info, e)
+						return ok && s == "#"
+					}
+					fa := &facts{map[types.Object]token.Pos{}, map[types.Object]bool{}}
+					all[f] = fa
+					f.OwnNodes(func(n ast.Node) bool {
+						switch x := n.(type) {
+						case *ast.BinaryExpr:
+							if x.Op == token.EQL || x.Op == token.NEQ {
+								if o := opOf(x.X); o != nil && isHash(x.Y) {
+									if _, ok := fa.matched[o]; !ok {
+										fa.matched[o] = x.Pos()
+									}
+								}
+								if se, ok := ast.Unparen(x.X).(*ast.SelectorExpr); ok && se.Sel.Name == "Word" && isNilIdent(info, x.Y) {
+									if o := isPE(se.X); o != nil {
+										fa.wordTested[o] = true
+									}
+								}
+							}
+						case *ast.SwitchStmt:
+							if x.Tag == nil {
+								return true
+							}
+							o := opOf(x.Tag)
+							if o == nil {
+								return true
+							}
+							for _, cl := range x.Body.List {
+								for _, e := range cl.(*ast.CaseClause).List {
+									if isHash(e) {
+										if _, ok := fa.matched[o]; !ok {
+											fa.matched[o] = e.Pos()
+										}
+									}
+								}
+							}
+						case *ast.CallExpr:
+							// len(pe.Word) == 0 also tells the forms apart
+							if id, ok := x.Fun.(*ast.Ident); ok && id.Name == "len" && len(x.Args) == 1 {
+								if se, ok := ast.Unparen(x.Args[0]).(*ast.SelectorExpr); ok && se.Sel.Name == "Word" {
+									if o := isPE(se.X); o != nil {
+										fa.wordTested[o] = true
+									}
+								}
+							}
+						}
+						return true
+					})
+				}
+			}
+			// callersTest: o is a parameter of f and every call of f hands over a ParamExp
+			// whose Word the caller examines (or that the caller received under the same terms)
+			var callersTest func(f *core.Func, o types.Object, depth int) bool
+			callersTest = func(f *core.Func, o types.Object, depth int) bool {
+				if depth > 2 || f.Obj == nil || f.Obj.Exported() {
+					return false
+				}
+				idx, k := -1, 0
+				if f.Type.Params != nil {
+					for _, fld := range f.Type.Params.List {
+						for _, nm := range fld.Names {
+							if f.Info().Defs[nm] == o {
+								idx = k
+							}
+							k++
+						}
+					}
+				}
+				if idx < 0 {
+					return false
+				}
+				sites := 0
+				for _, g := range funcs {
+					gi := g.Info()
+					for _, call := range c.callsTo(g, f) {
+						sites++
+						if idx >= len(call.Args) {
+							return false
+						}
+						id, ok := ast.Unparen(call.Args[idx]).(*ast.Ident)
+						if !ok {
+							return false
+						}
+						a := gi.Uses[id]
+						if a == nil || !(all[g].wordTested[a] || callersTest(g, a, depth+1)) {
+							return false
+						}
+					}
+				}
+				return sites > 0
+			}
+			for _, f := range funcs {
+				fa := all[f]
+				for o, pos := range fa.matched {
+					key := fmt.Sprintf("%s|Op of %s matched against \"#\"", f.Name, o.Name())
+					switch {
+					case fa.wordTested[o]:
+						rr.OK(f, key, pos, "forms-told-apart", "the function also examines Word for nil")
+					case callersTest(f, o, 0):
+						rr.OK(f, key, pos, "forms-told-apart", "every caller examines Word for nil before handing the expansion over")
+					default:
+						rr.Bad(f, key, pos, "the operator is matched against \"#\" but Word is never examined, neither here nor by every caller: the string-length form ${#name} (Word == nil) is handled like prefix removal ${name#word}")
+					}
+				}
+			}
+		}}
+}
